@@ -1,9 +1,24 @@
 package quic
 
-// [UQUIC] SetConnectionIDLimit was previously used to set a custom active connection ID
-// limit on the connIDManager. In quic-go v0.59.1, the connIDManager no longer stores
-// this limit — it is enforced via protocol.MaxActiveConnectionIDs and the peer's
-// transport parameters. This function is kept as a no-op for API compatibility;
-// the ActiveConnectionIDLimit value in the transport parameters already controls
-// how many connection IDs the server will send us.
-func (h *connIDManager) SetConnectionIDLimit(_ uint64) {}
+import "github.com/refraction-networking/uquic/internal/protocol"
+
+// [UQUIC] SetConnectionIDLimit tells the connIDManager which active_connection_id_limit was
+// advertised to the peer. A QUICSpec may advertise a value other than
+// protocol.MaxActiveConnectionIDs (e.g. 8 for the Firefox fingerprints); the peer is then
+// entitled to issue that many connection IDs, and must not be answered with a
+// CONNECTION_ID_LIMIT_ERROR for doing so.
+func (h *connIDManager) SetConnectionIDLimit(limit uint64) {
+	// A limit below 2 is invalid (RFC 9000, section 18.2) and is never advertised.
+	if limit >= 2 {
+		h.connIDLimit = limit
+	}
+}
+
+// connectionIDLimit is the number of connection IDs the peer may have issued and not yet retired,
+// as advertised in our active_connection_id_limit transport parameter.
+func (h *connIDManager) connectionIDLimit() int {
+	if h.connIDLimit != 0 {
+		return int(h.connIDLimit)
+	}
+	return protocol.MaxActiveConnectionIDs
+}
